@@ -325,6 +325,60 @@ fn check_len(case: &LenCase, ctx: &mut Ctx) -> Result<(), Fail> {
     Ok(())
 }
 
+// ------------------------------------------------------------------ the argsort under AUC (and under the trees), hook H1
+
+#[derive(Clone, Debug, Serialize, Deserialize)]
+pub struct ArgsortCase {
+    pub v: Vec<f64>,
+}
+
+fn strat_argsort(_t: Tier) -> BoxedStrategy<ArgsortCase> {
+    (1usize..=120)
+        .prop_flat_map(|n| {
+            prop_oneof![
+                2 => vec(unit(), n),
+                3 => vec((0i32..4).prop_map(|x| x as f64), n),
+                1 => vec((0i32..2).prop_map(|x| x as f64), n),
+                1 => vec(unit(), n).prop_map(|mut v| { v.sort_by(|a, b| a.partial_cmp(b).unwrap()); v }),
+                1 => vec(unit(), n).prop_map(|mut v| { v.sort_by(|a, b| b.partial_cmp(a).unwrap()); v }),
+                1 => (unit(), Just(n)).prop_map(|(x, n)| vec![x; n]),
+                // organ-pipe and saw-tooth patterns (median-of-three stress)
+                1 => Just((0..n).map(|i| if i < n / 2 { i as f64 } else { (n - i) as f64 }).collect::<Vec<f64>>()),
+                1 => Just((0..n).map(|i| (i % 5) as f64).collect::<Vec<f64>>()),
+            ]
+        })
+        .prop_map(|v| ArgsortCase { v })
+        .boxed()
+}
+
+fn check_argsort(case: &ArgsortCase, ctx: &mut Ctx) -> Result<(), Fail> {
+    use smartcore::verif_hooks::QuickArgSort;
+    let n = case.v.len();
+    let mut d = case.v.clone();
+    d.sort_by(|a, b| a.partial_cmp(b).unwrap());
+    let want = d.clone();
+    d.dedup();
+    ctx.nontrivial(n >= 8 && d.len() < n && d.len() > 1);
+    ctx.label_if(n <= 7, "len<=7 (insertion sort only)");
+    ctx.label_if(n > 7, "len>7 (partitioning)");
+    let (sorted, idx, idx2) = no_panic("quick_argsort", || {
+        let mut v = case.v.clone();
+        let idx = v.quick_argsort_mut();
+        let idx2 = case.v.quick_argsort();
+        (v, idx, idx2)
+    })?;
+    ensure!(sorted == want, "argsort/not-sorted", "quick_argsort_mut left {:?} (input {:?})", sorted, case.v);
+    ensure!(idx.len() == n, "argsort/index-length", "{} indices for {} values", idx.len(), n);
+    let mut seen = vec![false; n];
+    for (pos, &i) in idx.iter().enumerate() {
+        ensure!(i < n && !seen[i], "argsort/not-a-permutation", "indices {:?} are not a permutation", idx);
+        seen[i] = true;
+        ensure!(case.v[i] == sorted[pos], "argsort/index-value-mismatch", "index {} at position {} points at {} but the sorted value is {}", i, pos, case.v[i], sorted[pos]);
+    }
+    ensure!(idx2 == idx, "argsort/copying-variant-differs", "quick_argsort and quick_argsort_mut return different permutations");
+    Ok(())
+}
+
 pub fn property() -> Property {
     Property {
         id: "C15",
@@ -340,6 +394,7 @@ pub fn property() -> Property {
             sub("regression", (3000, 100000), strat_reg, check_reg),
             sub("cluster", (4000, 150000), strat_cluster, check_cluster),
             sub("length_mismatch", (500, 10000), strat_len, check_len),
+            sub("argsort", (3000, 100000), strat_argsort, check_argsort),
         ],
     }
 }
